@@ -131,36 +131,21 @@ Print Assumptions C16_local_first_find_refuted.
 
 (* ---------------------------------------------------------------- load errors *)
 
-Definition C16_load_errors_contained_statement : Prop :=
-  forall src, survives (load src) = true.
-(* contained: syntactically corrupt JSON (local or remote), an unreachable URL; and a description
-   that A exported always loads *)
-Theorem C16_load_errors_contained_partial : forall src,
-  benign src ->
+(* For every state of the description - the file is missing, unreadable, not UTF-8, not JSON, or
+   JSON of ANY shape (every JSON value, not only the shapes a generator thinks of); a local path
+   (relative or absolute) or a URL that cannot be opened - loading does not end the run, and where
+   there is no description the project lists stay as they were.  (Full statement: the four load
+   defects recorded earlier are repaired; the model's own fuel never runs out, load_json_total.) *)
+Theorem C16_load_errors_contained : forall src,
   survives (load src) = true /\ (has_description src = false -> only_links_lost (load src) = true).
-Proof. exact load_errors_contained_partial. Qed.
-Print Assumptions C16_load_errors_contained_partial.
-Theorem C16_load_errors_contained_refuted_missing :
-  forall d, survives (load (SLocal d LMissing)) = false.
-Proof. reflexivity. Qed.
-Print Assumptions C16_load_errors_contained_refuted_missing.
-Theorem C16_load_errors_contained_refuted_absolute :
-  forall p, survives (load (SLocalAbs p)) = false.
-Proof. reflexivity. Qed.
-Print Assumptions C16_load_errors_contained_refuted_absolute.
-Theorem C16_load_errors_contained_refuted_undecodable :
-  forall d u, survives (load (SLocal d LUndecodable)) = false /\ survives (load (SRemote u RUndecodable)) = false.
-Proof. split; reflexivity. Qed.
-Print Assumptions C16_load_errors_contained_refuted_undecodable.
-Theorem C16_load_errors_contained_refuted_shape :
-  forall d, survives (load (SLocal d (LJson (JDict [(METADATA_NAME, JDict [])])))) = false /\
-            survives (load (SLocal d (LJson (JList [JDict [(s "name", JStr (s "m"))]])))) = false /\
-            survives (load (SLocal d (LJson (JNum 3)))) = false.
-Proof. repeat split; reflexivity. Qed.
-Print Assumptions C16_load_errors_contained_refuted_shape.
-Theorem C16_load_errors_contained_refuted : ~ C16_load_errors_contained_statement.
-Proof. intros H. specialize (H (SLocalAbs [])). discriminate H. Qed.
-Print Assumptions C16_load_errors_contained_refuted.
+Proof. exact load_errors_contained. Qed.
+Print Assumptions C16_load_errors_contained.
+
+(* a description is loaded entirely or not at all *)
+Theorem C16_load_all_or_nothing : forall src,
+  match load src with OLoaded _ | OContained => True | ORaised _ => False end.
+Proof. exact load_all_or_nothing. Qed.
+Print Assumptions C16_load_all_or_nothing.
 
 (* ---------------------------------------------------------------- non-vacuity *)
 
